@@ -29,6 +29,10 @@ type c15State struct {
 func c15Retag(m []byte, snd, rcv uint32) []byte {
 	if guessMessageType(m) == msgGuessFragment {
 		f, ok := refParseFragment(m)
+		if !ok && bytes.HasPrefix(m, []byte("?OTR|")) && bytes.IndexByte(m, ',') > 0 {
+			// ill-formed remainder: only the tags are rewritten
+			return append([]byte(fmt.Sprintf("?OTR|%08x|%08x", snd, rcv)), m[bytes.IndexByte(m, ','):]...)
+		}
 		if !ok || !f.V3 {
 			return nil
 		}
@@ -114,6 +118,15 @@ func c15States(seed int64) (states []c15State, genuine map[string][2][]byte) {
 		genuine["FRAG"] = g
 		// not delivered: the receiver under test never saw these
 	}
+	// a fragmented message has just been reassembled and processed (either direction)
+	for i := 0; i < 2; i++ {
+		w.P[i].C.SetFragmentSize(200)
+		r := w.P[i].Send([]byte("fragmented and delivered"))
+		w.P[i].C.SetFragmentSize(0)
+		w.push(i, r.Out)
+		w.deliverAll(20, nil)
+	}
+	snap("encrypted-after-fragmented-message")
 	e := w.P[0].End()
 	w.push(0, e.Out)
 	w.deliverAll(10, nil)
@@ -127,13 +140,35 @@ var c15RcvTags = []uint32{0, 0x50, 0xfffffffd /* replaced by the receiver's own 
 func c15Hostile(st c15State, genuine map[string][2][]byte) (out []c15Msg) {
 	R := st.W.P[st.R]
 	peer := st.W.P[1-st.R]
-	for _, kind := range []string{"COMMIT", "DHKEY", "REVEALSIG", "SIG", "DATA", "FRAG"} {
-		g := genuine[kind][1-st.R]
+	for _, kind := range []string{"COMMIT", "DHKEY", "REVEALSIG", "SIG", "DATA", "FRAG", "BADFRAG", "CUTCOMMIT"} {
+		src := kind
+		switch kind {
+		case "BADFRAG":
+			src = "FRAG"
+		case "CUTCOMMIT":
+			src = "COMMIT"
+		}
+		g := genuine[src][1-st.R]
 		if g == nil {
-			g = genuine[kind][st.R] // a message of that kind produced by the other role still parses
+			g = genuine[src][st.R] // a message of that kind produced by the other role still parses
 		}
 		if g == nil {
 			continue
+		}
+		switch kind {
+		case "BADFRAG":
+			// the header carries tags, the rest is not a fragment: non-numeric piece counter
+			g = bytes.Replace(g, []byte(",00002,"), []byte(",0000x,"), 1)
+			if !bytes.Contains(g, []byte(",0000x,")) {
+				continue
+			}
+		case "CUTCOMMIT":
+			// header (version, type, tags) plus three bytes of body: not a well-formed D-H Commit
+			raw, err := decode(encodedMessage(g))
+			if err != nil || len(raw) < 14 {
+				continue
+			}
+			g = c13B64(raw[:14])
 		}
 		for _, s := range c15SndTags {
 			if s == 0xfffffffe {
@@ -161,6 +196,10 @@ type c15Model struct {
 func (m *c15Model) classify(x c15Msg) string {
 	if x.Snd < 0x100 || (x.Rcv > 0 && x.Rcv < 0x100) {
 		return "malformed"
+	}
+	if x.Kind == "BADFRAG" || x.Kind == "CUTCOMMIT" {
+		// valid tags on something that is not a well-formed message or fragment: teaches nothing
+		return "illformed"
 	}
 	if x.Rcv != 0 && x.Rcv != m.Own {
 		if m.Bound == 0 {
@@ -201,12 +240,14 @@ func c15RunSeq(st c15State, seq []c15Msg, seed int64) (fs []verifFinding, classe
 		classes = append(classes, class)
 		if class == "ours" {
 			// processed like genuine traffic (binds if unbound); not a hostile step
-			if model.Bound == 0 {
-				model.Bound = x.Snd
-			}
 			r := R.Receive(x.Msg)
 			if r.Panic != "" {
 				bad("panic:"+verifPanicClass(r.Panic), "%s", r.Panic)
+			}
+			if model.Bound == 0 && (r.Err == "" || R.C.theirInstanceTag != 0) {
+				// a message with valid tags that the conversation could process teaches it the peer's instance; one
+				// that it turned down with an error may (the statement says "only from", not "from every")
+				model.Bound = x.Snd
 			}
 			if R.C.theirInstanceTag != model.Bound {
 				bad("binding-differs-after-wellformed", "after well-formed %s the conversation is bound to %#x, the model to %#x", c15Desc(x), R.C.theirInstanceTag, model.Bound)
@@ -224,7 +265,7 @@ func c15RunSeq(st c15State, seq []c15Msg, seed int64) (fs []verifFinding, classe
 			bad(class+"-yields-plaintext", "%s %s yields plaintext %q", class, c15Desc(x), verifTrunc(r.Plain))
 		}
 		for _, o := range r.Out {
-			if class == "malformed" && bytes.HasPrefix(o, errorMarker) {
+			if (class == "malformed" || class == "illformed") && bytes.HasPrefix(o, errorMarker) {
 				continue
 			}
 			bad(class+"-answered:"+verifMsgKind(o), "%s %s is answered with %s", class, c15Desc(x), verifMsgKind(o))
@@ -249,6 +290,13 @@ func c15RunSeq(st c15State, seq []c15Msg, seed int64) (fs []verifFinding, classe
 				bad("state-changed-by-foreign", "%s changed the conversation beyond the peer tag", c15Desc(x))
 			}
 			R.C.theirInstanceTag = saved
+		case class == "illformed":
+			// what an ill-formed message from the right instance does to the session is C06's and C13's subject; here
+			// it must not teach the conversation who its peer is
+			if R.C.theirInstanceTag != boundBefore {
+				bad("binding-changed-by-illformed", "ill-formed message %s changed the bound peer instance from %#x to %#x", c15Desc(x), boundBefore, R.C.theirInstanceTag)
+				model.Bound = R.C.theirInstanceTag
+			}
 		default:
 			if R.C.theirInstanceTag != boundBefore {
 				bad("binding-changed-by-"+class, "%s message %s changed the bound peer instance from %#x to %#x", class, c15Desc(x), boundBefore, R.C.theirInstanceTag)
@@ -318,7 +366,7 @@ func init() {
 			return nil
 		},
 		Run: func(r *verifReport) {
-			r.Rule = "(a) every scripted answer sequence of length ≤ 3 over {0,1,0xff,0x100,0x101,0xffffffff} to the 4-byte reads of the randomness source: own tag ≥ 0x100 and carried by every emitted v3 header; (b) receiver in each state of an honest v3 exchange (fresh before and after drawing its own tag, after each handshake step in both roles, encrypted, after traffic, finished) × every sequence of ≤ 2 (thorough: 3 for the first-message kinds) messages from {DH-Commit, DH-Key, Reveal-Sig, Sig, data, fragment} × sender tag {0,1,0xff,0x100,peer,other valid} × receiver tag {0,0x50,own,other valid} built from genuine traffic; lock-step reference model of the binding; foreign/malformed messages: no plaintext, no reply except an OTR error for malformed ones, conversation state hash unchanged, binding unchanged; after every sequence that changed nothing the genuine continuation is trivially identical, after one that did the continuation is run differentially; (c) ExtractInstanceTags on every message and fragment of (b) returns exactly the tags written"
+			r.Rule = "(a) every scripted answer sequence of length ≤ 3 over {0,1,0xff,0x100,0x101,0xffffffff} to the 4-byte reads of the randomness source: own tag ≥ 0x100 and carried by every emitted v3 header; (b) receiver in each state of an honest v3 exchange (fresh before and after drawing its own tag, after each handshake step in both roles, encrypted, after traffic, right after a fragmented message was reassembled, finished) × every sequence of ≤ 2 (thorough: 3 for the first-message kinds) messages from {DH-Commit, DH-Key, Reveal-Sig, Sig, data, fragment, fragment with a non-numeric counter, D-H Commit cut after 3 body bytes} × sender tag {0,1,0xff,0x100,peer,other valid} × receiver tag {0,0x50,own,other valid} built from genuine traffic; lock-step reference model of the binding; foreign/malformed messages: no plaintext, no reply except an OTR error for malformed ones, conversation state hash unchanged, binding unchanged; after every sequence that changed nothing the genuine continuation is trivially identical, after one that did the continuation is run differentially; (c) ExtractInstanceTags on every message and fragment of (b) returns exactly the tags written"
 			r.Assumptions = []string{"whether a well-formed first message addressed to another receiver instance binds the peer tag is left open (both accepted)", "hostile messages are genuine messages with rewritten tags"}
 			c15OwnTag(r)
 			c15Extract(r)
@@ -366,6 +414,9 @@ func init() {
 				for i := range hs {
 					jobs <- job{st, []c15Msg{hs[i]}}
 					for j := range hs {
+						if r.Tier == "quick" && (hs[j].Kind == "BADFRAG" || hs[j].Kind == "CUTCOMMIT") {
+							continue // quick: the ill-formed carriers of valid tags come first or alone (a binding is only learnt once)
+						}
 						jobs <- job{st, []c15Msg{hs[i], hs[j]}}
 					}
 				}
@@ -407,6 +458,9 @@ func c15Diff(st c15State, h c15Msg, base string) (*verifFinding, bool) {
 	cl := m.classify(h)
 	if cl == "ours" || cl == "unbound-foreign-receiver" {
 		return nil, false
+	}
+	if cl == "illformed" && (st.Bound == 0 || h.Snd == st.Bound) && (h.Rcv == 0 || h.Rcv == m.Own) {
+		return nil, false // from the right instance: what it does to the session is not a question of isolation
 	}
 	w.P[st.R].Receive(h.Msg)
 	got := c15Continuation(w)
